@@ -1292,35 +1292,24 @@ theorem Chain.ext {v s gs cr cr' res} (h : Chain v s gs cr cr' res) : Ext cr cr'
 def appGroups (cfg : Cfg) (r : Rcpt) : List (List CheckId) :=
   [cfg.global, cfg.source, (cfg.block (cfg.route r)).checks]
 
-theorem addRcpt_chain (cfg : Cfg) (d : Dlv) (r : Rcpt) :
-    Chain cfg.v (.rcpt r) (appGroups cfg r) d.cr (addRcpt idOrd cfg d r).1.cr (addRcpt idOrd cfg d r).2 := by
-  have s1 := checkRcpt_spec cfg.v d.cr cfg.global r
-  simp only [addRcpt, appGroups]
-  generalize checkRcpt idOrd cfg.v d.cr cfg.global r = p1 at s1 ⊢
-  obtain ⟨c1, b1⟩ := p1
-  cases b1
-  · have s2 := checkRcpt_spec cfg.v c1 cfg.source r
-    simp only [Bool.false_eq_true, ↓reduceIte]
-    generalize checkRcpt idOrd cfg.v c1 cfg.source r = p2 at s2 ⊢
-    obtain ⟨c2, b2⟩ := p2
-    cases b2
-    · have s3 := checkRcpt_spec cfg.v c2 (cfg.block (cfg.route r)).checks r
-      simp only [Bool.false_eq_true, ↓reduceIte]
-      generalize checkRcpt idOrd cfg.v c2 (cfg.block (cfg.route r)).checks r = p3 at s3 ⊢
-      obtain ⟨c3, b3⟩ := p3
-      cases b3
-      · exact Chain.cons s1 (Chain.cons s2 (Chain.cons s3 (Chain.nil _)))
-      · exact Chain.cons s1 (Chain.cons s2 (Chain.stop s3))
-    · exact Chain.cons s1 (Chain.stop s2)
-  · exact Chain.stop s1
-
 /-- The condition under which the property demands (and allows) RCPT to be refused. -/
 def MustRefuseRcpt (cfg : Cfg) (r : Rcpt) : Prop :=
   ∃ g ∈ appGroups cfg r, ∃ c ∈ g, cfg.v c (.rcpt r) = .rej ∨ cfg.v c .conn = .rej ∨ cfg.v c .sender = .rej
 
-theorem addRcpt_refused_iff (cfg : Cfg) (d : Dlv) (r : Rcpt) (hr : RInv cfg.v d.cr) :
-    (addRcpt idOrd cfg d r).2 = true ↔ MustRefuseRcpt cfg r := by
-  have ch := addRcpt_chain cfg d r
+/-- Some modifier group fails in `RewriteRcpt` for this recipient. -/
+def MFaults.rcptAny (m : MFaults) (r : Rcpt) : Bool := m.rcptG r || m.rcptS r || m.rcptB r
+
+/-- The recipient passes every check that applies to it and the `RewriteRcpt` of the global and of
+the source modifiers: `AddRcpt` gets as far as `getRcptModifiers` of the destination block.  Such a
+recipient was *handled in the scope* of the block's checks (they were asked about it and let it
+pass) and its block takes part in the body stage - also when the block's own `RewriteRcpt` then
+fails for it. -/
+def ReachesBlock (cfg : Cfg) (r : Rcpt) : Prop :=
+  ¬ MustRefuseRcpt cfg r ∧ cfg.mf.rcptG r = false ∧ cfg.mf.rcptS r = false
+
+theorem chain_rcpt_refused_iff {cfg : Cfg} {r : Rcpt} {cr cr' : CR} {res : Bool}
+    (ch : Chain cfg.v (.rcpt r) (appGroups cfg r) cr cr' res) (hr : RInv cfg.v cr) :
+    res = true ↔ MustRefuseRcpt cfg r := by
   constructor
   · intro h
     obtain ⟨g, hg, c, hc, hv⟩ := ch.reject_of_refused h
@@ -1329,7 +1318,7 @@ theorem addRcpt_refused_iff (cfg : Cfg) (d : Dlv) (r : Rcpt) (hr : RInv cfg.v d.
     · exact Or.inl hv
     · exact Or.inr hv
   · rintro ⟨g, hg, c, hc, hv⟩
-    cases hres : (addRcpt idOrd cfg d r).2
+    cases hres : res
     · exfalso
       rw [hres] at ch
       rcases hv with hv | hv
@@ -1341,10 +1330,195 @@ theorem addRcpt_refused_iff (cfg : Cfg) (d : Dlv) (r : Rcpt) (hr : RInv cfg.v d.
         · exact this.2 hv
     · rfl
 
+/-- `AddRcpt`, case by case: either all three check groups were gone through (stopping at the first
+refusal; `res`), the command fails iff a check refused or the destination block's `RewriteRcpt`
+fails, and the block is entered into `rcptModifiersState` iff its checks passed; or the global /
+source `RewriteRcpt` failed after the global and source checks had passed. -/
+theorem addRcpt_cases (cfg : Cfg) (d : Dlv) (r : Rcpt) :
+    (∃ res, Chain cfg.v (.rcpt r) (appGroups cfg r) d.cr (addRcpt idOrd cfg d r).1.cr res ∧
+        (addRcpt idOrd cfg d r).2 = (res || cfg.mf.rcptB r) ∧
+        (res = false → cfg.mf.rcptG r = false ∧ cfg.mf.rcptS r = false) ∧
+        (addRcpt idOrd cfg d r).1.used = (if res then d.used else useBlock d.used (cfg.route r))) ∨
+    (Chain cfg.v (.rcpt r) [cfg.global, cfg.source] d.cr (addRcpt idOrd cfg d r).1.cr false ∧
+        (addRcpt idOrd cfg d r).2 = true ∧ (cfg.mf.rcptG r || cfg.mf.rcptS r) = true ∧
+        (addRcpt idOrd cfg d r).1.used = d.used) := by
+  have s1 := checkRcpt_spec cfg.v d.cr cfg.global r
+  simp only [addRcpt, appGroups]
+  generalize checkRcpt idOrd cfg.v d.cr cfg.global r = p1 at s1 ⊢
+  obtain ⟨c1, b1⟩ := p1
+  cases b1
+  · have s2 := checkRcpt_spec cfg.v c1 cfg.source r
+    simp only [Bool.false_eq_true, ↓reduceIte]
+    generalize checkRcpt idOrd cfg.v c1 cfg.source r = p2 at s2 ⊢
+    obtain ⟨c2, b2⟩ := p2
+    cases b2
+    · simp only [Bool.false_eq_true, ↓reduceIte]
+      by_cases hm : (cfg.mf.rcptG r || cfg.mf.rcptS r) = true
+      · right
+        simp only [hm, ↓reduceIte]
+        exact ⟨Chain.cons s1 (Chain.cons s2 (Chain.nil _)), by simp, by simp, by simp⟩
+      · left
+        have hm' : cfg.mf.rcptG r = false ∧ cfg.mf.rcptS r = false := by
+          simpa using hm
+        simp only [hm, Bool.false_eq_true, ↓reduceIte]
+        have s3 := checkRcpt_spec cfg.v c2 (cfg.block (cfg.route r)).checks r
+        generalize checkRcpt idOrd cfg.v c2 (cfg.block (cfg.route r)).checks r = p3 at s3 ⊢
+        obtain ⟨c3, b3⟩ := p3
+        cases b3
+        · refine ⟨false, ?_⟩
+          simp only [Bool.false_eq_true, ↓reduceIte]
+          cases hb : cfg.mf.rcptB r
+          · exact ⟨Chain.cons s1 (Chain.cons s2 (Chain.cons s3 (Chain.nil _))), by simp, fun _ => hm', by simp⟩
+          · exact ⟨Chain.cons s1 (Chain.cons s2 (Chain.cons s3 (Chain.nil _))), by simp, fun _ => hm', by simp⟩
+        · exact ⟨true, Chain.cons s1 (Chain.cons s2 (Chain.stop s3)), by simp, by simp, by simp⟩
+    · exact Or.inl ⟨true, Chain.cons s1 (Chain.stop s2), by simp, by simp, by simp⟩
+  · exact Or.inl ⟨true, Chain.stop s1, by simp, by simp, by simp⟩
+
+theorem mem_useBlock {us : List Nat} {b x : Nat} : x ∈ useBlock us b ↔ x ∈ us ∨ x = b := by
+  unfold useBlock
+  split
+  · rename_i h
+    constructor
+    · exact Or.inl
+    · rintro (h' | rfl)
+      · exact h'
+      · exact h
+  · simp
+
+/-- Well-formed configuration: no block lists the same check twice. -/
+structure Cfg.WF (cfg : Cfg) : Prop where
+  global : cfg.global.Nodup
+  source : cfg.source.Nodup
+  block : ∀ b, (cfg.block b).checks.Nodup
+
+theorem appGroups_nodup {cfg : Cfg} (hw : cfg.WF) (r : Rcpt) : ∀ g ∈ appGroups cfg r, g.Nodup := by
+  intro g hg
+  simp only [appGroups, List.mem_cons, List.not_mem_nil, or_false] at hg
+  rcases hg with rfl | rfl | rfl
+  · exact hw.global
+  · exact hw.source
+  · exact hw.block _
+
+/-- What one RCPT command does to the delivery, as far as the properties need. -/
+structure RcptStep (cfg : Cfg) (r : Rcpt) (d d' : Dlv) (refused : Bool) : Prop where
+  ext : Ext d.cr d'.cr
+  inv : cfg.WF → Inv d.cr → Inv d'.cr
+  qinv : QInv cfg.v d.cr → QInv cfg.v d'.cr
+  rinv : RInv cfg.v d.cr → RInv cfg.v d'.cr
+  q_src : d'.cr.mergedQ = true → d.cr.mergedQ = true ∨ ∃ c s, cfg.v c s = .quar
+  gens_keep : (∀ c, cfg.v c .conn ≠ .rej ∧ cfg.v c .sender ≠ .rej) → d'.cr.gens = d.cr.gens
+  done_src : ∀ k ∈ d'.cr.done, k ∈ d.cr.done ∨ ∃ g ∈ appGroups cfg r, k.c ∈ g
+  /-- refused exactly when an applicable check rejects or a modifier group fails for the recipient -/
+  refused_iff : RInv cfg.v d.cr → (refused = true ↔ MustRefuseRcpt cfg r ∨ cfg.mf.rcptAny r = true)
+  /-- a recipient that got as far as the block's modifiers was seen by every applicable check -/
+  reached : RInv cfg.v d.cr → ReachesBlock cfg r → ∀ g ∈ appGroups cfg r, ∀ c ∈ g,
+    c ∈ d'.cr.states ∧ (⟨c, d'.cr.gen c, .rcpt r⟩ : Call) ∈ d'.cr.done ∧
+    (cfg.v c (.rcpt r) = .quar → d'.cr.mergedQ = true)
+  /-- the blocks taking part in the body stage: never fewer, one more iff the recipient reached it -/
+  used : RInv cfg.v d.cr → ∀ b, b ∈ d'.used ↔ b ∈ d.used ∨ (ReachesBlock cfg r ∧ b = cfg.route r)
+
+theorem RcptStep.lower {cfg r d d' b} (h : RcptStep cfg r d d' b) : ∀ c ∈ d.cr.states, c ∈ d'.cr.states :=
+  fun c hc => (h.ext.st c hc).1
+
+/-- An accepted recipient reached its block. -/
+theorem RcptStep.accepted {cfg r d d'} (h : RcptStep cfg r d d' false) (hr : RInv cfg.v d.cr) :
+    ReachesBlock cfg r := by
+  have hn : ¬ (MustRefuseRcpt cfg r ∨ cfg.mf.rcptAny r = true) := by
+    intro hc
+    have := (h.refused_iff hr).mpr hc
+    cases this
+  refine ⟨fun hm => hn (Or.inl hm), ?_, ?_⟩
+  · cases hg : cfg.mf.rcptG r
+    · rfl
+    · exact absurd (Or.inr (by simp [MFaults.rcptAny, hg])) hn
+  · cases hg : cfg.mf.rcptS r
+    · rfl
+    · exact absurd (Or.inr (by simp [MFaults.rcptAny, hg])) hn
+
+theorem addRcpt_step (cfg : Cfg) (d : Dlv) (r : Rcpt) :
+    RcptStep cfg r d (addRcpt idOrd cfg d r).1 (addRcpt idOrd cfg d r).2 := by
+  rcases addRcpt_cases cfg d r with ⟨res, ch, h2, hmf, hu⟩ | ⟨ch, h2, hmf, hu⟩
+  · refine ⟨ch.ext, fun hw hi => ch.inv (appGroups_nodup hw r) hi, ch.qinv, ch.rinv, ch.q_src, ch.gens_keep,
+      ch.done_src, ?_, ?_, ?_⟩
+    · intro hr
+      have hri := chain_rcpt_refused_iff ch hr
+      rw [h2]
+      constructor
+      · intro h
+        cases hres : res
+        · rw [hres] at h
+          exact Or.inr (by simpa [MFaults.rcptAny] using Or.inr h)
+        · exact Or.inl (hri.mp hres)
+      · rintro (h | h)
+        · rw [hri.mpr h]; rfl
+        · cases hres : res
+          · have := hmf hres
+            simp only [MFaults.rcptAny, this.1, this.2, Bool.false_or] at h
+            simp [h]
+          · rfl
+    · intro hr hre g hg c hc
+      have hres : res = false := by
+        cases hres : res
+        · rfl
+        · exact absurd ((chain_rcpt_refused_iff ch hr).mp hres) hre.1
+      rw [hres] at ch
+      exact ch.ok rfl g hg c hc
+    · intro hr b
+      have hri := chain_rcpt_refused_iff ch hr
+      rw [hu]
+      cases hres : res
+      · simp only [Bool.false_eq_true, ↓reduceIte, mem_useBlock]
+        have hre : ReachesBlock cfg r := ⟨fun hm => (by rw [hri.mpr hm] at hres; cases hres), hmf hres⟩
+        constructor
+        · rintro (h | h)
+          · exact Or.inl h
+          · exact Or.inr ⟨hre, h⟩
+        · rintro (h | ⟨_, h⟩)
+          · exact Or.inl h
+          · exact Or.inr h
+      · simp only [↓reduceIte]
+        constructor
+        · exact Or.inl
+        · rintro (h | ⟨hre, _⟩)
+          · exact h
+          · exact absurd (hri.mp hres) hre.1
+  · have hn2 : ∀ g ∈ [cfg.global, cfg.source], g ∈ appGroups cfg r := by
+      intro g hg
+      simp only [List.mem_cons, List.not_mem_nil, or_false] at hg
+      rcases hg with rfl | rfl <;> simp [appGroups]
+    refine ⟨ch.ext, fun hw hi => ch.inv (fun g hg => appGroups_nodup hw r g (hn2 g hg)) hi, ch.qinv, ch.rinv,
+      ch.q_src, ch.gens_keep, ?_, ?_, ?_, ?_⟩
+    · intro k hk
+      rcases ch.done_src k hk with h | ⟨g, hg, hc⟩
+      · exact Or.inl h
+      · exact Or.inr ⟨g, hn2 g hg, hc⟩
+    · intro _
+      rw [h2]
+      simp only [true_iff]
+      right
+      simp only [Bool.or_eq_true] at hmf
+      rcases hmf with h | h <;> simp [MFaults.rcptAny, h]
+    · intro _ hre
+      exfalso
+      simp only [Bool.or_eq_true] at hmf
+      rcases hmf with h | h
+      · rw [hre.2.1] at h; cases h
+      · rw [hre.2.2] at h; cases h
+    · intro _ b
+      rw [hu]
+      constructor
+      · exact Or.inl
+      · rintro (h | ⟨hre, _⟩)
+        · exact h
+        · exfalso
+          simp only [Bool.or_eq_true] at hmf
+          rcases hmf with h | h
+          · rw [hre.2.1] at h; cases h
+          · rw [hre.2.2] at h; cases h
+
 /-- A refused recipient leaves the deliveries alone. -/
 theorem addRcpt_refused_frame (o : Ord) (cfg : Cfg) (d : Dlv) (r : Rcpt) (h : (addRcpt o cfg d r).2 = true) :
-    (addRcpt o cfg d r).1.deliveries = d.deliveries ∧ (addRcpt o cfg d r).1.used = d.used ∧
-    (addRcpt o cfg d r).1.metaQ = d.metaQ := by
+    (addRcpt o cfg d r).1.deliveries = d.deliveries ∧ (addRcpt o cfg d r).1.metaQ = d.metaQ := by
   simp only [addRcpt] at h ⊢
   split
   · simp
@@ -1352,7 +1526,11 @@ theorem addRcpt_refused_frame (o : Ord) (cfg : Cfg) (d : Dlv) (r : Rcpt) (h : (a
     · simp
     · split
       · simp
-      · rename_i h1 h2 h3; simp [h1, h2, h3] at h
+      · split
+        · simp
+        · split
+          · simp
+          · rename_i h1 h2 h3 h4 h5; simp [h1, h2, h3, h4, h5] at h
 
 theorem addRcpt_metaQ (o : Ord) (cfg : Cfg) (d : Dlv) (r : Rcpt) : (addRcpt o cfg d r).1.metaQ = d.metaQ := by
   simp only [addRcpt]
@@ -1360,7 +1538,11 @@ theorem addRcpt_metaQ (o : Ord) (cfg : Cfg) (d : Dlv) (r : Rcpt) : (addRcpt o cf
   · rfl
   · split
     · rfl
-    · split <;> rfl
+    · split
+      · rfl
+      · split
+        · rfl
+        · split <;> rfl
 
 theorem mem_addToDeliveries {ds : List (TgtId × List Rcpt)} {t : TgtId} {r : Rcpt} {x : TgtId × List Rcpt}
     (hx : x ∈ addToDeliveries ds t r) : ∀ y ∈ x.2, y = r ∨ ∃ x0 ∈ ds, x0.1 = x.1 ∧ y ∈ x0.2 := by
@@ -1406,38 +1588,16 @@ theorem addRcpt_deliveries (o : Ord) (cfg : Cfg) (d : Dlv) (r : Rcpt) :
       · rename_i h1 h2; simp [h1, h2] at hres
       · split at hx
         · rename_i h1 h2 h3; simp [h1, h2, h3] at hres
-        · simp only at hx
-          rcases mem_foldl_addToDeliveries _ r _ x hx y hy with h | h
-          · exact Or.inl ⟨h, rfl⟩
-          · exact Or.inr h
+        · split at hx
+          · rename_i h1 h2 h3 h4; simp [h1, h2, h3, h4] at hres
+          · split at hx
+            · rename_i h1 h2 h3 h4 h5; simp [h1, h2, h3, h4, h5] at hres
+            · simp only at hx
+              rcases mem_foldl_addToDeliveries _ r _ x hx y hy with h | h
+              · exact Or.inl ⟨h, rfl⟩
+              · exact Or.inr h
   · rw [(addRcpt_refused_frame o cfg d r hres).1] at hx
     exact Or.inr ⟨x, hx, rfl, hy⟩
-
-theorem addRcpt_used (o : Ord) (cfg : Cfg) (d : Dlv) (r : Rcpt) (b : Nat) :
-    b ∈ (addRcpt o cfg d r).1.used ↔ b ∈ d.used ∨ ((addRcpt o cfg d r).2 = false ∧ b = cfg.route r) := by
-  cases hres : (addRcpt o cfg d r).2
-  · simp only [addRcpt] at hres ⊢
-    split
-    · rename_i h; simp [h] at hres
-    · split
-      · rename_i h1 h2; simp [h1, h2] at hres
-      · split
-        · rename_i h1 h2 h3; simp [h1, h2, h3] at hres
-        · simp only
-          split
-          · rename_i hm; constructor
-            · exact Or.inl
-            · rintro (h | ⟨_, rfl⟩)
-              · exact h
-              · exact hm
-          · simp
-  · rw [(addRcpt_refused_frame o cfg d r hres).2.1]; simp
-
-/-- Well-formed configuration: no block lists the same check twice. -/
-structure Cfg.WF (cfg : Cfg) : Prop where
-  global : cfg.global.Nodup
-  source : cfg.source.Nodup
-  block : ∀ b, (cfg.block b).checks.Nodup
 
 /-- Invariant of a pipeline delivery between two commands. -/
 structure DInv (cfg : Cfg) (d : Dlv) : Prop where
@@ -1447,117 +1607,126 @@ structure DInv (cfg : Cfg) (d : Dlv) : Prop where
   gs : ∀ c, c ∈ cfg.global ∨ c ∈ cfg.source → c ∈ d.cr.states
   used : ∀ b ∈ d.used, ∀ c ∈ (cfg.block b).checks, c ∈ d.cr.states
 
-theorem appGroups_nodup {cfg : Cfg} (hw : cfg.WF) (r : Rcpt) : ∀ g ∈ appGroups cfg r, g.Nodup := by
-  intro g hg
-  simp only [appGroups, List.mem_cons, List.not_mem_nil, or_false] at hg
-  rcases hg with rfl | rfl | rfl
-  · exact hw.global
-  · exact hw.source
-  · exact hw.block _
-
 theorem addRcpt_dinv (cfg : Cfg) (hw : cfg.WF) (d : Dlv) (r : Rcpt) (h : DInv cfg d) :
     DInv cfg (addRcpt idOrd cfg d r).1 := by
-  have ch := addRcpt_chain cfg d r
-  refine ⟨ch.inv (appGroups_nodup hw r) h.inv, ch.qinv h.qinv, ch.rinv h.rinv,
-    fun c hc => ch.lower c (h.gs c hc), ?_⟩
+  have st := addRcpt_step cfg d r
+  refine ⟨st.inv hw h.inv, st.qinv h.qinv, st.rinv h.rinv, fun c hc => st.lower c (h.gs c hc), ?_⟩
   intro b hb c hc
-  rcases (addRcpt_used idOrd cfg d r b).mp hb with hb | ⟨hok, rfl⟩
-  · exact ch.lower c (h.used b hb c hc)
-  · rw [hok] at ch
-    exact (ch.ok rfl _ (by simp [appGroups]) c hc).1
+  rcases (st.used h.rinv b).mp hb with hb | ⟨hre, rfl⟩
+  · exact st.lower c (h.used b hb c hc)
+  · exact (st.reached h.rinv hre _ (by simp [appGroups]) c hc).1
 
 /-! ### MAIL -/
 
 theorem newOf_init (g : List CheckId) : newOf CR.init g = g := by
   simp [newOf, CR.init]
 
+/-- MAIL is refused exactly when a global or source check rejects the connection or the sender, or
+the `RewriteSender` of the global or of the source modifiers fails. -/
 theorem start_refused_iff (cfg : Cfg) :
     (start idOrd cfg).2 = true ↔
-      ∃ c, (c ∈ cfg.global ∨ c ∈ cfg.source) ∧ (cfg.v c .conn = .rej ∨ cfg.v c .sender = .rej) := by
+      (∃ c, (c ∈ cfg.global ∨ c ∈ cfg.source) ∧ (cfg.v c .conn = .rej ∨ cfg.v c .sender = .rej)) ∨
+      cfg.mf.senderG = true ∨ cfg.mf.senderS = true := by
   have f1 := cs_frame cfg.v CR.init cfg.global
   simp only [start]
   by_cases h1 : (checkStates idOrd cfg.v CR.init cfg.global).2 = true
   · simp only [h1, ↓reduceIte, true_iff]
     obtain ⟨c, hc, _, hv⟩ := (cs_snd_iff _ _ _).mp h1
-    exact ⟨c, Or.inl hc, hv⟩
+    exact Or.inl ⟨c, Or.inl hc, hv⟩
   · have h1' : (checkStates idOrd cfg.v CR.init cfg.global).2 = false := by simpa using h1
     simp only [h1, Bool.false_eq_true, ↓reduceIte]
-    rw [cs_snd_iff, (f1.2.1 h1').1, newOf_init]
-    constructor
-    · rintro ⟨c, hc, _, hv⟩; exact ⟨c, Or.inr hc, hv⟩
-    · rintro ⟨c, hc | hc, hv⟩
-      · exact absurd ((cs_snd_iff _ _ _).mpr ⟨c, hc, by simp [CR.init], hv⟩) h1
-      · by_cases hg : c ∈ cfg.global
-        · exact absurd ((cs_snd_iff _ _ _).mpr ⟨c, hg, by simp [CR.init], hv⟩) h1
-        · exact ⟨c, hc, by simpa [CR.init] using hg, hv⟩
+    cases hg : cfg.mf.senderG
+    · simp only [Bool.false_eq_true, ↓reduceIte, false_or]
+      by_cases h2 : (checkStates idOrd cfg.v (checkStates idOrd cfg.v CR.init cfg.global).1 cfg.source).2 = true
+      · simp only [h2, ↓reduceIte, true_iff]
+        obtain ⟨c, hc, _, hv⟩ := (cs_snd_iff _ _ _).mp h2
+        exact Or.inl ⟨c, Or.inr hc, hv⟩
+      · simp only [h2, Bool.false_eq_true, ↓reduceIte]
+        constructor
+        · exact Or.inr
+        · rintro (⟨c, hc, hv⟩ | h)
+          · exfalso
+            have hgl : c ∉ cfg.global := fun hc' => h1 ((cs_snd_iff _ _ _).mpr ⟨c, hc', by simp [CR.init], hv⟩)
+            rcases hc with hc | hc
+            · exact hgl hc
+            · apply h2
+              rw [cs_snd_iff, (f1.2.1 h1').1, newOf_init]
+              exact ⟨c, hc, by simpa [CR.init] using hgl, hv⟩
+          · exact h
+    · simp
 
 theorem start_frame (o : Ord) (cfg : Cfg) :
     (start o cfg).1.used = [] ∧ (start o cfg).1.deliveries = [] ∧ (start o cfg).1.metaQ = cfg.q0 := by
-  simp only [start]; split <;> simp
+  simp only [start]
+  split
+  · simp
+  · split
+    · simp
+    · split <;> simp
 
-theorem start_dinv (cfg : Cfg) (hw : cfg.WF) (hok : (start idOrd cfg).2 = false) :
-    DInv cfg (start idOrd cfg).1 := by
-  have f1 := cs_frame cfg.v CR.init cfg.global
-  have i1 := cs_inv cfg.v CR.init cfg.global Inv.init hw.global
-  have q1 := cs_qinv cfg.v CR.init cfg.global (QInv.init _)
-  have r1 := cs_rinv cfg.v CR.init cfg.global (RInv.init _)
-  simp only [start] at hok ⊢
-  by_cases h1 : (checkStates idOrd cfg.v CR.init cfg.global).2 = true
-  · simp [h1] at hok
-  · have h1' : (checkStates idOrd cfg.v CR.init cfg.global).2 = false := by simpa using h1
-    simp only [h1, Bool.false_eq_true, ↓reduceIte] at hok ⊢
-    have st1 := (f1.2.1 h1').1
-    rw [newOf_init] at st1
-    generalize (checkStates idOrd cfg.v CR.init cfg.global).1 = c1 at i1 q1 r1 st1 hok ⊢
-    have f2 := cs_frame cfg.v c1 cfg.source
-    have st2 := (f2.2.1 hok).1
-    refine ⟨cs_inv cfg.v c1 cfg.source i1 hw.source, cs_qinv cfg.v c1 cfg.source q1,
-      cs_rinv cfg.v c1 cfg.source r1, ?_, by simp⟩
-    intro c hc
-    simp only [st2, st1, CR.init, List.nil_append, List.mem_append]
-    rcases hc with hc | hc
-    · exact Or.inl hc
-    · by_cases hg : c ∈ cfg.global
-      · exact Or.inl hg
-      · exact Or.inr (mem_newOf.mpr ⟨hc, by simpa [st1, CR.init] using hg⟩)
+/-- An accepted MAIL: both check groups passed, no `RewriteSender` failed. -/
+theorem start_ok_eq (cfg : Cfg) (hok : (start idOrd cfg).2 = false) :
+    (checkStates idOrd cfg.v CR.init cfg.global).2 = false ∧
+    (checkStates idOrd cfg.v (checkStates idOrd cfg.v CR.init cfg.global).1 cfg.source).2 = false ∧
+    cfg.mf.senderG = false ∧ cfg.mf.senderS = false ∧
+    (start idOrd cfg).1.cr =
+      (checkStates idOrd cfg.v (checkStates idOrd cfg.v CR.init cfg.global).1 cfg.source).1 := by
+  have h1 : (checkStates idOrd cfg.v CR.init cfg.global).2 = false := by
+    cases h : (checkStates idOrd cfg.v CR.init cfg.global).2
+    · rfl
+    · simp [start, h] at hok
+  have hg : cfg.mf.senderG = false := by
+    cases h : cfg.mf.senderG
+    · rfl
+    · simp [start, h1, h] at hok
+  have h2 : (checkStates idOrd cfg.v (checkStates idOrd cfg.v CR.init cfg.global).1 cfg.source).2 = false := by
+    cases h : (checkStates idOrd cfg.v (checkStates idOrd cfg.v CR.init cfg.global).1 cfg.source).2
+    · rfl
+    · simp [start, h1, hg, h] at hok
+  refine ⟨h1, h2, hg, ?_, ?_⟩
+  · simpa [start, h1, h2, hg] using hok
+  · simp [start, h1, h2, hg]
 
 /-- After an accepted MAIL: no live state object rejected connection or sender, their quarantine
 verdicts are recorded, and every global and source check has a state object. -/
 theorem start_ok (cfg : Cfg) (hok : (start idOrd cfg).2 = false) :
     RInv cfg.v (start idOrd cfg).1.cr ∧ QInv cfg.v (start idOrd cfg).1.cr ∧
     (∀ c, c ∈ cfg.global ∨ c ∈ cfg.source → c ∈ (start idOrd cfg).1.cr.states) := by
+  obtain ⟨h1, h2, _, _, e⟩ := start_ok_eq cfg hok
   have f1 := cs_frame cfg.v CR.init cfg.global
-  simp only [start] at hok ⊢
-  by_cases h1 : (checkStates idOrd cfg.v CR.init cfg.global).2 = true
-  · simp [h1] at hok
-  · have h1' : (checkStates idOrd cfg.v CR.init cfg.global).2 = false := by simpa using h1
-    simp only [h1, Bool.false_eq_true, ↓reduceIte] at hok ⊢
-    have st1 := (f1.2.1 h1').1
-    rw [newOf_init] at st1
-    have f2 := cs_frame cfg.v (checkStates idOrd cfg.v CR.init cfg.global).1 cfg.source
-    have st2 := (f2.2.1 hok).1
-    refine ⟨cs_rinv _ _ _ (cs_rinv _ _ _ (RInv.init _)), cs_qinv _ _ _ (cs_qinv _ _ _ (QInv.init _)), ?_⟩
-    intro c hc
-    rw [st2]
-    rcases hc with hc | hc
-    · exact List.mem_append_left _ (by rw [st1]; simpa [CR.init] using hc)
-    · by_cases hg : c ∈ cfg.global
-      · exact List.mem_append_left _ (by rw [st1]; simpa [CR.init] using hg)
-      · exact List.mem_append_right _ (mem_newOf.mpr ⟨hc, by rw [st1]; simpa [CR.init] using hg⟩)
+  have st1 := (f1.2.1 h1).1
+  rw [newOf_init] at st1
+  have f2 := cs_frame cfg.v (checkStates idOrd cfg.v CR.init cfg.global).1 cfg.source
+  have st2 := (f2.2.1 h2).1
+  rw [e]
+  refine ⟨cs_rinv _ _ _ (cs_rinv _ _ _ (RInv.init _)), cs_qinv _ _ _ (cs_qinv _ _ _ (QInv.init _)), ?_⟩
+  intro c hc
+  rw [st2]
+  rcases hc with hc | hc
+  · exact List.mem_append_left _ (by rw [st1]; simpa [CR.init] using hc)
+  · by_cases hg : c ∈ cfg.global
+    · exact List.mem_append_left _ (by rw [st1]; simpa [CR.init] using hg)
+    · exact List.mem_append_right _ (mem_newOf.mpr ⟨hc, by rw [st1]; simpa [CR.init] using hg⟩)
 
 theorem start_inv (cfg : Cfg) (hw : cfg.WF) : Inv (start idOrd cfg).1.cr := by
   simp only [start]
   split
   · exact cs_inv _ _ _ Inv.init hw.global
-  · exact cs_inv _ _ _ (cs_inv _ _ _ Inv.init hw.global) hw.source
+  · split
+    · exact cs_inv _ _ _ Inv.init hw.global
+    · split <;> exact cs_inv _ _ _ (cs_inv _ _ _ Inv.init hw.global) hw.source
+
+theorem start_dinv (cfg : Cfg) (hw : cfg.WF) (hok : (start idOrd cfg).2 = false) :
+    DInv cfg (start idOrd cfg).1 := by
+  have k := start_ok cfg hok
+  refine ⟨start_inv cfg hw, k.2.1, k.1, k.2.2, ?_⟩
+  intro b hb
+  rw [(start_frame idOrd cfg).1] at hb
+  cases hb
 
 theorem start_gens (cfg : Cfg) (hok : (start idOrd cfg).2 = false) : (start idOrd cfg).1.cr.gens = [] := by
-  simp only [start] at hok ⊢
-  by_cases h1 : (checkStates idOrd cfg.v CR.init cfg.global).2 = true
-  · simp [h1] at hok
-  · have h1' : (checkStates idOrd cfg.v CR.init cfg.global).2 = false := by simpa using h1
-    simp only [h1, Bool.false_eq_true, ↓reduceIte] at hok ⊢
-    rw [((cs_frame _ _ _).2.1 hok).2, ((cs_frame _ _ _).2.1 h1').2]; rfl
+  obtain ⟨h1, h2, _, _, e⟩ := start_ok_eq cfg hok
+  rw [e, ((cs_frame _ _ _).2.1 h2).2, ((cs_frame _ _ _).2.1 h1).2]; rfl
 
 theorem addAll_inv (cfg : Cfg) (hw : cfg.WF) (rs : List Rcpt) : ∀ d : Dlv,
     Inv d.cr → Inv (addAll idOrd cfg d rs).1.cr := by
@@ -1565,25 +1734,34 @@ theorem addAll_inv (cfg : Cfg) (hw : cfg.WF) (rs : List Rcpt) : ∀ d : Dlv,
   | nil => intro d h; simpa [addAll] using h
   | cons r rest ih =>
     intro d h; simp only [addAll]
-    exact ih _ ((addRcpt_chain cfg d r).inv (appGroups_nodup hw r) h)
+    exact ih _ ((addRcpt_step cfg d r).inv hw h)
 
 theorem addAll_gens_keep (cfg : Cfg) (hno : ∀ c, cfg.v c .conn ≠ .rej ∧ cfg.v c .sender ≠ .rej) (rs : List Rcpt) :
     ∀ d : Dlv, (addAll idOrd cfg d rs).1.cr.gens = d.cr.gens := by
   induction rs with
   | nil => intro d; simp [addAll]
-  | cons r rest ih => intro d; simp only [addAll]; rw [ih, (addRcpt_chain cfg d r).gens_keep hno]
+  | cons r rest ih => intro d; simp only [addAll]; rw [ih, (addRcpt_step cfg d r).gens_keep hno]
 
 theorem start_q_src (cfg : Cfg) (h : (start idOrd cfg).1.cr.mergedQ = true) : ∃ c s, cfg.v c s = .quar := by
-  simp only [start] at h
-  split at h
-  · rcases cs_mergedQ_src _ _ _ h with h | h
+  have one : ∀ {cr : CR}, cr = (checkStates idOrd cfg.v CR.init cfg.global).1 → cr.mergedQ = true →
+      ∃ c s, cfg.v c s = .quar := by
+    intro cr e h
+    subst e
+    rcases cs_mergedQ_src _ _ _ h with h | h
     · simp [CR.init] at h
     · exact h
-  · rcases cs_mergedQ_src _ _ _ h with h | h
-    · rcases cs_mergedQ_src _ _ _ h with h | h
-      · simp [CR.init] at h
-      · exact h
+  have two : (checkStates idOrd cfg.v (checkStates idOrd cfg.v CR.init cfg.global).1 cfg.source).1.mergedQ = true →
+      ∃ c s, cfg.v c s = .quar := by
+    intro h
+    rcases cs_mergedQ_src _ _ _ h with h | h
+    · exact one rfl h
     · exact h
+  simp only [start] at h
+  split at h
+  · exact one rfl h
+  · split at h
+    · exact one rfl h
+    · split at h <;> exact two h
 
 /-! ### the RCPT commands -/
 
@@ -1602,33 +1780,66 @@ theorem addAll_dinv (cfg : Cfg) (hw : cfg.WF) (rs : List Rcpt) : ∀ d : Dlv,
 theorem addAll_ext (cfg : Cfg) (rs : List Rcpt) : ∀ d : Dlv, Ext d.cr (addAll idOrd cfg d rs).1.cr := by
   induction rs with
   | nil => intro d; simpa [addAll] using Ext.refl _
-  | cons r rest ih => intro d; simp only [addAll]; exact (addRcpt_chain cfg d r).ext.trans (ih _)
+  | cons r rest ih => intro d; simp only [addAll]; exact (addRcpt_step cfg d r).ext.trans (ih _)
+
+theorem addAll_rinv (cfg : Cfg) (rs : List Rcpt) : ∀ d : Dlv, RInv cfg.v d.cr →
+    RInv cfg.v (addAll idOrd cfg d rs).1.cr := by
+  induction rs with
+  | nil => intro d h; simpa [addAll] using h
+  | cons r rest ih => intro d h; simp only [addAll]; exact ih _ ((addRcpt_step cfg d r).rinv h)
+
+theorem addAll_qinv (cfg : Cfg) (rs : List Rcpt) : ∀ d : Dlv, QInv cfg.v d.cr →
+    QInv cfg.v (addAll idOrd cfg d rs).1.cr := by
+  induction rs with
+  | nil => intro d h; simpa [addAll] using h
+  | cons r rest ih => intro d h; simp only [addAll]; exact ih _ ((addRcpt_step cfg d r).qinv h)
 
 theorem addAll_metaQ (o : Ord) (cfg : Cfg) (rs : List Rcpt) : ∀ d : Dlv, (addAll o cfg d rs).1.metaQ = d.metaQ := by
   induction rs with
   | nil => intro d; simp [addAll]
   | cons r rest ih => intro d; simp only [addAll]; rw [ih, addRcpt_metaQ]
 
-/-- Every RCPT command is refused exactly when the property says it must be. -/
+/-- Every RCPT command is refused exactly when the property says it must be, or a modifier group
+fails for its recipient. -/
 theorem addAll_refused_iff (cfg : Cfg) (rs : List Rcpt) : ∀ d : Dlv, RInv cfg.v d.cr →
-    ∀ x ∈ (addAll idOrd cfg d rs).2, x.2 = true ↔ MustRefuseRcpt cfg x.1 := by
+    ∀ x ∈ (addAll idOrd cfg d rs).2, x.2 = true ↔ MustRefuseRcpt cfg x.1 ∨ cfg.mf.rcptAny x.1 = true := by
   induction rs with
   | nil => intro d _ x hx; simp [addAll] at hx
   | cons r rest ih =>
     intro d hr x hx
     simp only [addAll, List.mem_cons] at hx
     rcases hx with rfl | hx
-    · exact addRcpt_refused_iff cfg d r hr
-    · exact ih _ ((addRcpt_chain cfg d r).rinv hr) x hx
+    · exact (addRcpt_step cfg d r).refused_iff hr
+    · exact ih _ ((addRcpt_step cfg d r).rinv hr) x hx
 
-theorem addAll_used (o : Ord) (cfg : Cfg) (rs : List Rcpt) : ∀ (d : Dlv) (b : Nat),
-    b ∈ (addAll o cfg d rs).1.used ↔ b ∈ d.used ∨ ∃ x ∈ (addAll o cfg d rs).2, x.2 = false ∧ cfg.route x.1 = b := by
+/-- An accepted recipient reached its block. -/
+theorem addAll_accepted_reaches (cfg : Cfg) (rs : List Rcpt) (d : Dlv) (hr : RInv cfg.v d.cr) :
+    ∀ x ∈ (addAll idOrd cfg d rs).2, x.2 = false → ReachesBlock cfg x.1 := by
+  intro x hx hxa
+  have hn : ¬ (MustRefuseRcpt cfg x.1 ∨ cfg.mf.rcptAny x.1 = true) := by
+    intro hc
+    have := (addAll_refused_iff cfg rs d hr x hx).mpr hc
+    rw [hxa] at this; cases this
+  refine ⟨fun hm => hn (Or.inl hm), ?_, ?_⟩
+  · cases hg : cfg.mf.rcptG x.1
+    · rfl
+    · exact absurd (Or.inr (by simp [MFaults.rcptAny, hg])) hn
+  · cases hg : cfg.mf.rcptS x.1
+    · rfl
+    · exact absurd (Or.inr (by simp [MFaults.rcptAny, hg])) hn
+
+/-- The key set of `rcptModifiersState` after the RCPT commands: the blocks of all recipients that
+got as far as their block's modifiers - whatever happened to later recipients of the same block. -/
+theorem addAll_used (cfg : Cfg) (rs : List Rcpt) : ∀ (d : Dlv), RInv cfg.v d.cr → ∀ (b : Nat),
+    b ∈ (addAll idOrd cfg d rs).1.used ↔
+      b ∈ d.used ∨ ∃ x ∈ (addAll idOrd cfg d rs).2, ReachesBlock cfg x.1 ∧ cfg.route x.1 = b := by
   induction rs with
-  | nil => intro d b; simp [addAll]
+  | nil => intro d _ b; simp [addAll]
   | cons r rest ih =>
-    intro d b
+    intro d hr b
+    have st := addRcpt_step cfg d r
     simp only [addAll]
-    rw [ih, addRcpt_used]
+    rw [ih _ (st.rinv hr), st.used hr]
     constructor
     · rintro ((h | ⟨h1, h2⟩) | ⟨x, hx, h⟩)
       · exact Or.inl h
@@ -1654,27 +1865,33 @@ theorem addAll_deliveries (o : Ord) (cfg : Cfg) (rs : List Rcpt) : ∀ (d : Dlv)
       · exact Or.inl ⟨_, List.mem_cons_self, rfl, hok⟩
       · exact Or.inr ⟨t0, ht0, e0.trans e1, hy0⟩
 
-/-- For every accepted recipient, at the end of the RCPT phase: each applicable check has a live
-state object that has seen this recipient, and a quarantine verdict on it is recorded. -/
-theorem addAll_accepted (cfg : Cfg) (rs : List Rcpt) : ∀ (d : Dlv),
-    ∀ x ∈ (addAll idOrd cfg d rs).2, x.2 = false → ∀ g ∈ appGroups cfg x.1, ∀ c ∈ g,
+/-- For every recipient that got as far as its block's modifiers (every accepted one in particular),
+at the end of the RCPT phase: each applicable check has a live state object that has seen this
+recipient, and a quarantine verdict on it is recorded. -/
+theorem addAll_reached (cfg : Cfg) (rs : List Rcpt) : ∀ (d : Dlv), RInv cfg.v d.cr →
+    ∀ x ∈ (addAll idOrd cfg d rs).2, ReachesBlock cfg x.1 → ∀ g ∈ appGroups cfg x.1, ∀ c ∈ g,
       c ∈ (addAll idOrd cfg d rs).1.cr.states ∧
       (⟨c, (addAll idOrd cfg d rs).1.cr.gen c, .rcpt x.1⟩ : Call) ∈ (addAll idOrd cfg d rs).1.cr.done ∧
       (cfg.v c (.rcpt x.1) = .quar → (addAll idOrd cfg d rs).1.cr.mergedQ = true) := by
   induction rs with
-  | nil => intro d x hx; simp [addAll] at hx
+  | nil => intro d _ x hx; simp [addAll] at hx
   | cons r rest ih =>
-    intro d x hx hok g hg c hc
+    intro d hr x hx hre g hg c hc
+    have st := addRcpt_step cfg d r
     simp only [addAll, List.mem_cons] at hx ⊢
     rcases hx with rfl | hx
-    · have ch := addRcpt_chain cfg d r
-      simp only at hok
-      rw [hok] at ch
-      have k := ch.ok rfl g hg c hc
+    · have k := st.reached hr hre g hg c hc
       have e := addAll_ext cfg rest (addRcpt idOrd cfg d r).1
       have m := e.mem k.1 k.2.1
       exact ⟨m.1, m.2, fun hq => e.q (k.2.2 hq)⟩
-    · exact ih _ x hx hok g hg c hc
+    · exact ih _ (st.rinv hr) x hx hre g hg c hc
+
+theorem addAll_accepted (cfg : Cfg) (rs : List Rcpt) (d : Dlv) (hr : RInv cfg.v d.cr) :
+    ∀ x ∈ (addAll idOrd cfg d rs).2, x.2 = false → ∀ g ∈ appGroups cfg x.1, ∀ c ∈ g,
+      c ∈ (addAll idOrd cfg d rs).1.cr.states ∧
+      (⟨c, (addAll idOrd cfg d rs).1.cr.gen c, .rcpt x.1⟩ : Call) ∈ (addAll idOrd cfg d rs).1.cr.done ∧
+      (cfg.v c (.rcpt x.1) = .quar → (addAll idOrd cfg d rs).1.cr.mergedQ = true) :=
+  fun x hx hxa => addAll_reached cfg rs d hr x hx (addAll_accepted_reaches cfg rs d hr x hx hxa)
 
 /-- Only checks of the global block, of the source block and of the destination blocks of the
 submitted recipients are ever called. -/
@@ -1686,23 +1903,30 @@ theorem addAll_done_src (cfg : Cfg) (rs : List Rcpt) : ∀ d : Dlv,
     intro d k hk
     simp only [addAll] at hk
     rcases ih _ k hk with hk | ⟨r', hr', h⟩
-    · rcases (addRcpt_chain cfg d r).done_src k hk with hk | h
+    · rcases (addRcpt_step cfg d r).done_src k hk with hk | h
       · exact Or.inl hk
       · exact Or.inr ⟨r, List.mem_cons_self, h⟩
     · exact Or.inr ⟨r', List.mem_cons_of_mem _ hr', h⟩
 
 theorem start_done_src (cfg : Cfg) : ∀ k ∈ (start idOrd cfg).1.cr.done, k.c ∈ cfg.global ∨ k.c ∈ cfg.source := by
   intro k hk
+  have one : k ∈ (checkStates idOrd cfg.v CR.init cfg.global).1.done → k.c ∈ cfg.global := by
+    intro hk
+    rcases cs_done_src _ _ _ k hk with h | h
+    · simp [CR.init] at h
+    · exact h
+  have two : k ∈ (checkStates idOrd cfg.v (checkStates idOrd cfg.v CR.init cfg.global).1 cfg.source).1.done →
+      k.c ∈ cfg.global ∨ k.c ∈ cfg.source := by
+    intro hk
+    rcases cs_done_src _ _ _ k hk with h | h
+    · exact Or.inl (one h)
+    · exact Or.inr h
   simp only [start] at hk
   split at hk
-  · rcases cs_done_src _ _ _ k hk with h | h
-    · simp [CR.init] at h
-    · exact Or.inl h
-  · rcases cs_done_src _ _ _ k hk with h | h
-    · rcases cs_done_src _ _ _ k h with h | h
-      · simp [CR.init] at h
-      · exact Or.inl h
-    · exact Or.inr h
+  · exact Or.inl (one hk)
+  · split at hk
+    · exact Or.inl (one hk)
+    · split at hk <;> exact two hk
 
 theorem addAll_q_src (cfg : Cfg) (rs : List Rcpt) : ∀ (d : Dlv),
     (addAll idOrd cfg d rs).1.cr.mergedQ = true → d.cr.mergedQ = true ∨ ∃ c s, cfg.v c s = .quar := by
@@ -1712,7 +1936,7 @@ theorem addAll_q_src (cfg : Cfg) (rs : List Rcpt) : ∀ (d : Dlv),
     intro d h
     simp only [addAll] at h
     rcases ih _ h with h | h
-    · exact (addRcpt_chain cfg d r).q_src h
+    · exact (addRcpt_step cfg d r).q_src h
     · exact Or.inr h
 
 /-! ### DATA -/
@@ -1774,6 +1998,8 @@ theorem bodySMTP_eq (cfg : Cfg) (d : Dlv) :
       if (bodyChecks cfg d).2 then ({ d with cr := (bodyChecks cfg d).1 }, ⟨some .check, []⟩)
       else if (applyResults cfg { d with cr := (bodyChecks cfg d).1 }).2 then
         ((applyResults cfg { d with cr := (bodyChecks cfg d).1 }).1, ⟨some .dmarc, []⟩)
+      else if modBodyFails cfg (applyResults cfg { d with cr := (bodyChecks cfg d).1 }).1 then
+        ((applyResults cfg { d with cr := (bodyChecks cfg d).1 }).1, ⟨some .modifier, []⟩)
       else ((applyResults cfg { d with cr := (bodyChecks cfg d).1 }).1,
             ⟨none, deliverAll cfg (applyResults cfg { d with cr := (bodyChecks cfg d).1 }).1⟩) := by
   simp only [bodySMTP, bodyChecks]
@@ -1793,6 +2019,11 @@ theorem applyResults_spec (cfg : Cfg) (d : Dlv) :
     ((applyResults cfg d).2 = true ↔ cfg.dmarc = .rej) ∧
     ((applyResults cfg d).1.metaQ = (d.metaQ || d.cr.mergedQ || (cfg.dmarc == .quar))) := by
   unfold applyResults; split <;> simp_all
+
+/-- The `RewriteBody` phase sees the blocks the check phase saw. -/
+theorem modBodyFails_applyResults (cfg : Cfg) (d : Dlv) :
+    modBodyFails cfg (applyResults cfg d).1 = modBodyFails cfg d := by
+  simp only [modBodyFails, (applyResults_frame cfg d).2.1]
 
 theorem bodyLMTP_eq_bodySMTP : bodyLMTP = bodySMTP := rfl
 
